@@ -21,7 +21,7 @@ TopUniverse == { [f |-> "p1", nameid |-> 1, holds |-> "pel1"],
                  [f |-> "o1", nameid |-> 0, holds |-> "text"] }
 SubUniverse == { "none", "archive_with_pel1", "dir_named_id1" }
 
-IdArgs == {1, 2, 3, 4}            \* 4: an id no file name contains
+IdArgs == {1, 2, 3, 4, 5, 6}      \* 4: an id no file name contains; 5, 6: ids with leading zeros (0x00001234, 0)
 Kinds == {"list", "all", "count", "plid", "src", "srcex", "id", "bmcid", "listhex", "allrev", "listext",
           "delete", "deleteall", "json", "jsonout", "jsonclean", "file", "fileclean", "filehex",
           "list+deleteall", "count+delete", "deletebadid", "all+deleteall", "plid+delete"}
